@@ -12,12 +12,12 @@ CHECKS = {
    text="For every enumerated grammar the verdict (conflicts or not) equals the reference's, and for accepted grammars both lox's ParserTable object and the decoded _actions/_goto/_rules/_termCounts arrays are isomorphic to the reference LALR(1) automaton with the documented precedence rule applied.",
    note="Trusted: internal/lalrref. Grammars where the documented precedence rule is silent are skipped and counted. D2 (equal-level @right) is a recorded known finding with a predicate.", ref="DESIGN.md section C04"),
  "C05": dict(level="exploration", technique="exhaustive enumeration of operator tables x all operator chains up to a bound, parsed by the real runtime; tree compared with precedence climbing",
-   text="All 756 operator tables x every chain of up to 4 (quick) / 5 (thorough) operators and single parenthesisations: the tree built from the real reduce sequence must be the precedence-climbing tree.",
+   text="All 1260 operator tables (binary levels, unary prefix operators sharing a token, four spellings of the level numerals) x every chain of up to 4 (quick) / 6 (thorough) operators and single parenthesisations: the tree built from the real reduce sequence must be the precedence-climbing tree.",
    note="Trusted: precedence-climbing reference in cmd/loxmc/c05.go. D2 (equal-level @right groups left) is a recorded known finding with a predicate.", ref="DESIGN.md section C05"),
  "C09": dict(level="model_checking", technique="bounded exhaustive enumeration of @error grammars x all strings (tokens + lexer ERROR) up to a bound + pumped variants, on the real runtime with exact non-termination criteria; Earley viability oracle",
    text="Every conflict-free grammar of the @error spaces is run on every input up to the bound (and pumped inputs) on the real template code; termination is decided exactly (repeated configuration / pumping / _recover inner-loop bound), and verdict, blamed token and consumed symbols are compared with an Earley reference.",
    note="Trusted: internal/cfgref Earley. The blamed-token oracle applies to reduced grammars; when the Error for the first bad token is still on the stack at the first delivery (right-nested error productions, bottom-up order) that is accepted and counted. The generic action never calls recoverLookahead.", ref="DESIGN.md section C09, 2.4"),
- "C16": dict(level="model_checking", technique="bounded exhaustive enumeration of nullable-rich grammars x all sentences up to a bound, executed on the second template variant (bounds carrier); spans compared with the yields of the reduction tree; differential against the plain variant",
+ "C16": dict(level="model_checking", technique="bounded exhaustive enumeration of nullable-rich grammars x all sentences up to a bound, executed on the second template variant (bounds carrier); spans compared with the yields of the reduction tree; differential against the plain variant and against runs whose actions return nil",
    text="For every accepted grammar with a nullable non-terminal, every sentence up to the bound is parsed by the real _onBounds template variant: exactly one call right after each non-empty reduction with the action's result and first/last token of the yield, none for empty yields, and verdict/reductions/reads identical to the variant without _onBounds.",
    note="Trusted: the tree built by the generic action from the real stack (its shape is C01/C03's subject). Error inputs are checked for exactly-once and crash freedom only.", ref="DESIGN.md section C16"),
  "C02": dict(level="model_checking", technique="bounded exhaustive enumeration of rule sets; per rule set an explicit-state BFS over the product (real _LexerStateMachine with emitted tables) x (reference derivative automaton) covering inputs of every length, plus all byte strings up to a bound through the real simplelexer driver",
@@ -31,7 +31,7 @@ CHECKS = {
    note="Trusted: internal/lx RefM. The mode stack makes the product infinite; it is explored to depth D and deeper pushes are counted as closed branches. Nothing is compared after an unmatched @pop_mode.", ref="DESIGN.md section C07"),
  "C11": dict(level="model_checking", technique="bounded exhaustive enumeration of rule sets / mode graphs (nullable rules and accumulating fragments included); per spec explicit-state BFS of all reachable configurations of the real state machine with an exact livelock search (all input lengths), plus all byte strings up to a bound lexed to EOF by the real driver with a tiling oracle",
    text="For every enumerated specification every reachable configuration of the real state machine is visited and, for every pending rune, non-consuming answers are followed until they consume, end, or provably repeat (livelock). All short byte strings are then lexed to EOF by the real simplelexer with a recorder: token texts, discarded stretches and error stretches must tile the input exactly once, in order.",
-   note="Trusted: the reconstruction of error stretches from the reference driver's skip-to-next-line behaviour. No reference lexer semantics is involved.", ref="DESIGN.md section C11"),
+   note="Trusted: the reconstruction of error stretches from the reference driver's skip-to-next-line behaviour; internal/lexref for the membership test (dropped text is matched by a @discard rule, token text by a rule of its type) on single-mode specifications.", ref="DESIGN.md section C11"),
  "C10": dict(level="model_checking", technique="read-back of the emitted integer tables by their documented row format; structural checks; state-by-state equality with the automaton objects; per lexer spec explicit-state BFS over the product (real state machine on the emitted table) x (reference automaton of the rules) = equivalence over all strings",
    text="For every specification of the enumerated families the emitted _lexerModeN tables are decoded independently, checked for structure, compared edge by edge with the DFA object they were emitted from, and the real PushRune running on them is searched in product with the reference automaton of the rules, so subset construction, partition refinement and range merging are shown to change nothing observable for all strings. Parser arrays are decoded and compared entry for entry with the automaton object.",
    note="Trusted: internal/lexref, the row-format decoder in internal/px/decode.go and cmd/loxmc/c10.go.", ref="DESIGN.md section C10"),
@@ -47,9 +47,9 @@ CHECKS = {
  "C17": dict(level="fault_enumeration", technique="single-fault enumeration: every fault of a catalogue placed at every applicable syntactic site of well-formed base specifications, plus benign variants; front end executed on each",
    text="Every fault of the catalogue at every site is rejected with a diagnostic whose file:line lies inside the faulty declaration (the harness prints the text, so it knows the spans); every benign variant of the well-formed bases is accepted.",
    note="Bounded by the two base specifications and the catalogue in cmd/loxmc/c17.go. A mode block cannot be re-opened in lox, so in-mode sites stay in the mode's file.", ref="DESIGN.md section C17"),
- "C12": dict(level="fault_enumeration", technique="deviation-bounded exhaustive exploration around valid inputs (bound 1): every single token-level and byte-level deviation at every position of the seeds, whole pipeline executed in process under recover(); finite Go-package menu through the real binary",
+ "C12": dict(level="fault_enumeration", technique="deviation-bounded exhaustive exploration around valid inputs: every single token-level, declaration-level and byte-level deviation at every position of the seeds (bound 1), every pair of token-level deviations around a tiny seed (bound 2), whole pipeline executed in process under recover(); finite Go-package menu through the real binary",
    text="Every single-token deletion, duplication, transposition, replacement and insertion (menu of ~75 extreme lexemes), every truncation and every special-byte substitution of the seed specifications goes through the whole generator: it must return, never panic, and either produce three complete Go files or at least one diagnostic. About 35 package configurations (missing, ill-typed, ill-shaped, stale files, no module) are run through the real lox binary.",
-   note="Bound 1 only. No exact hang criterion exists inside the generator: a 120 s watchdog ends a shard as inconclusive (exit 0), never as a violation. Whether accepted output compiles with the package is left to C06.", ref="DESIGN.md section C12"),
+   note="Bound 1 on all seeds, bound 2 on one tiny seed with a reduced menu. No exact hang criterion exists inside the generator: a 120 s watchdog ends a shard as inconclusive (exit 0), never as a violation. Whether accepted output compiles with the package is left to C06.", ref="DESIGN.md section C12"),
  "C03": dict(level="exploration", technique="exhaustive enumeration of a shape-complete sugar family; unmodified generated code compiled with a logging user package by the real toolchain and run on every sentence up to a bound; action log compared with the post-order of the reference derivation tree",
    text="For every grammar of the family, the real generated parser (unmodified, compiled) runs every sentence up to the bound; the sequence of action calls, each argument and each result must be exactly the bottom-up, left-to-right traversal of the unique derivation tree, with the documented values for ? * + *! @list.",
    note="Trusted: internal/cfgref trees and the documented sugar values as implemented in cmd/loxmc/c03.go. Bounded by the family and sentence length.", ref="DESIGN.md section C03"),
